@@ -11,6 +11,7 @@ patterns written as Python source with pattern variables:
     V_xxx  matches any Name (consistently),   E_xxx  matches any expression (consistently).
 """
 import ast
+from . import srcnorm as _srcnorm
 import os
 import re
 from . import py2coq as P
@@ -155,7 +156,7 @@ def module_int_const(mod, name):
 
 
 def epsilon_q():
-    mod = ast.parse(open(UTILS).read())
+    mod = _srcnorm.parse_file(UTILS)
     vals = [ast.unparse(n.value) for n in mod.body if isinstance(n, ast.Assign) and len(n.targets) == 1
             and isinstance(n.targets[0], ast.Name) and n.targets[0].id == 'EPSILON']
     if vals != ['np.finfo(np.float32).eps']:
@@ -339,7 +340,7 @@ def tr_base_compute_theta():
             or st[1].orelse or not isinstance(st[1].body[-1], ast.Raise) or 'ValueError' not in ast.unparse(st[1].body[-1]):
         raise Unsupported('Bivariate.check_theta changed: ' + ' ;; '.join(ast.unparse(s)[:80] for s in st))
     for cls, fn in (('Clayton', 'clayton.py'), ('Gumbel', 'gumbel.py'), ('Frank', 'frank.py')):
-        m = ast.parse(open(os.path.join(REPO, 'copulas', 'bivariate', fn)).read())
+        m = _srcnorm.parse_file(os.path.join(REPO, 'copulas', 'bivariate', fn))
         k = next((n for n in m.body if isinstance(n, ast.ClassDef) and n.name == cls), None)
         if k is None or [ast.unparse(x) for x in k.bases] != ['Bivariate']:
             raise Unsupported(f'class {cls} is not a direct subclass of Bivariate')
@@ -536,7 +537,7 @@ def generate(ctx):
     status, info = {}, {}
     out = HEADER
     try:
-        mod = ast.parse(open(INIT).read())
+        mod = _srcnorm.parse_file(INIT)
     except Exception as e:      # fail closed
         mod = None
         status['parse'] = f'{type(e).__name__}: {e}'
